@@ -116,69 +116,6 @@ func hasNonAliasMerge(docs []parser.VerifDoc) bool {
 	return found
 }
 
-// tagKindMismatch: the node's explicit tag contradicts what it is (aliases resolved; a !!null tag never counts).
-func tagKindMismatch(n *yaml.Node) bool {
-	if n.Alias != nil {
-		n = n.Alias
-	}
-	tag := n.ShortTag()
-	if tag == "!!null" {
-		return false
-	}
-	switch n.Kind {
-	case yaml.MappingNode:
-		return tag != "!!map"
-	case yaml.SequenceNode:
-		return tag != "!!seq"
-	case yaml.ScalarNode:
-		return tag == "!!map" || tag == "!!seq"
-	}
-	return false
-}
-
-// hasRuleValueTagKindMismatch (known finding C01-tag-kind, narrowed after b22de24): the `labels` / `annotations` value of a
-// RULE mapping, or a value inside any `labels` / `annotations` mapping, carries an explicit tag contradicting its kind.
-// Also (b): a mapping or sequence explicitly tagged !!null (kindMismatch exempts every !!null-tagged node).
-// The group / rules / rule / group-labels sites with any other contradicting tag are NOT in the class any more.
-func hasRuleValueTagKindMismatch(docs []parser.VerifDoc) bool {
-	found := false
-	for _, d := range docs {
-		walkForest(d.Node, map[*yaml.Node]bool{}, func(n *yaml.Node) {
-			if (n.Kind == yaml.MappingNode || n.Kind == yaml.SequenceNode) && n.ShortTag() == "!!null" {
-				found = true // class (b): a collection explicitly tagged !!null
-			}
-			if n.Kind != yaml.MappingNode {
-				return
-			}
-			isRule := false
-			for i := 0; i+1 < len(n.Content); i += 2 {
-				switch n.Content[i].Value {
-				case "record", "alert", "expr":
-					isRule = true
-				}
-			}
-			for i := 0; i+1 < len(n.Content); i += 2 {
-				if k := n.Content[i].Value; k != "labels" && k != "annotations" {
-					continue
-				}
-				v := n.Content[i+1]
-				if isRule && tagKindMismatch(v) {
-					found = true
-				}
-				if v.Alias != nil {
-					v = v.Alias
-				}
-				for j := 1; j < len(v.Content); j += 2 {
-					if tagKindMismatch(v.Content[j]) {
-						found = true
-					}
-				}
-			}
-		})
-	}
-	return found
-}
-
 // scalarIsNull: yaml.v3 resolves the scalar to null (decoding it into an interface{} yields nil without error).
 func scalarIsNull(n *yaml.Node) bool {
 	var v any = "sentinel"
@@ -388,8 +325,6 @@ func runC01(args []string) int {
 			}
 			known := ""
 			switch {
-			case hasRuleValueTagKindMismatch(docs):
-				known = "C01-tag-kind"
 			case hasNonAliasMerge(docs):
 				known = "C01-merge-not-alias"
 			}
